@@ -221,7 +221,7 @@ PROPS['C02'] = {
     'parts': [engine_part('views', 'e_views', 'C02', shards_quick=2, asan='thorough', miri=True, miri_args=['--maxn', '5'], miri_quick_args=['--maxn', '2'])],
     'rule': ("length gate: N in {0..13,15,16,17,31,32,33,64,100,255,256,1000,1024} x every L in 0..=N+2 (N<=13) or {0,1,N-1,N,N+1,2N} x {from_slice, try_from_slice, TryFrom<&[T]>, from_mut_slice, try_from_mut_slice, TryFrom<&mut [T]>} x element in "
              "{u8, u64, (), 4-byte tracked, zero-sized tracked, 16-byte/16-aligned, padded (u8,u16), 3-byte, 64-byte/64-aligned, 32-byte/32-aligned tracked}; the source is the middle of a larger buffer with canary elements; oracle: accepted iff L == N (documented panic / LengthError otherwise), accepted view = "
-             "(address of the source, N), contents in order, writes through mutable views land in the source, canaries untouched. View matrix per (N, element): nine shared views and eight mutable views must all be (array address, N) with the elements in order; through each of the eight "
+             "(address of the source, N), contents in order, writes through mutable views land in the source, canaries untouched; every (entry, N, L, element) is offered a second time with the source being a WHOLE heap allocation of exactly L elements (a view created longer than its source, even transiently and never read, then leaves the allocation, where the Miri / AddressSanitizer substrates can see it). View matrix per (N, element): nine shared views and eight mutable views must all be (array address, N) with the elements in order; through each of the eight "
              "mutable views a fresh value is written at every index (lattice for N > 13) and read back through all nine shared views; From<&[T;N]>/From<&mut [T;N]> alias the native array. By value: from_array/into_array/From both ways keep every identity in place "
              "with no drop (ledger); tuple conversions for every arity 1..=12. Non-trivial = N > 0 or L > 0."),
     'exhaustive': True,
@@ -232,8 +232,8 @@ PROPS['C10'] = {
     'level': 'exploration',
     'technique': 'bounded exhaustive enumeration of (N, slice length L, shared/mutable, element type) for the chunk functions on the real code with pointer/length oracles; the same calls are also run inside the const evaluator by the C18 corpus',
     'parts': [engine_part('chunks', 'e_views', 'C10', shards_quick=2, asan='thorough', miri=True, miri_args=['--maxn', '8'], miri_quick_args=['--maxn', '2'])],
-    'rule': ("N in {0,1,2,3,7,8,16,17,33,64,100,1024} x every L in 0..=4N+3 (N>=100: {0,1,N-1,N,N+1,2N-1,2N,2N+1,4N+3}) x {chunks_from_slice, chunks_from_slice_mut} x element in {u8, padded (u8,u16), u64, (), 16-aligned, tracked}; oracle: parts are "
-             "(src, L/N) and (src + (L/N)*N*size, L mod N), element [c][j] == src[c*N+j], slice_from_chunks(_mut) of the chunk part is (src, (L/N)*N), writes through each mutable part land at that source index, canaries untouched; N = 0: empty -> two empty "
+    'rule': ("N in {0,1,2,3,7,8,16,17,33,64,100,1024} x every L in 0..=4N+3 (N>=100: {0,1,N-1,N,N+1,2N-1,2N,2N+1,4N+3}) x {chunks_from_slice, chunks_from_slice_mut} x element in {u8, padded (u8,u16), u64, (), 16-aligned, tracked, 3-byte, 64-byte/64-aligned}; oracle: parts are "
+             "(src, L/N) and (src + (L/N)*N*size, L mod N), element [c][j] == src[c*N+j], slice_from_chunks(_mut) of the chunk part is (src, (L/N)*N), writes through each mutable part land at that source index, canaries untouched; every (N, L, element, form) a second time on a whole heap allocation of exactly L elements, with a write through the first and last element of every part and of the re-flattened chunk part; N = 0: empty -> two empty "
              "results, non-empty -> the documented panic. from_chunks/into_chunks(_mut) and slice_from_chunks(_mut) applied directly to 0..=5 arrays (the only way to have chunks of length 0): same address and count, writes visible. For zero-sized elements also L in {2^32-2, 2^32-1, 2^32, 2^32+7, 2^33+1, 2^40+N+1, isize::MAX} (lengths only). Non-trivial = L > 0."),
     'exhaustive': True,
     'exhaustive_scope': 'the listed finite product; complete in L for N < 100',
@@ -411,9 +411,9 @@ PROPS['C18'] = {
     'technique': "bounded exhaustive enumeration of generated const items (const fn x N x L x element type x shared/mut); the executor is rustc's const evaluator (E0080 on UB or failed expectation), followed by run-time execution of the same functions and comparison of the digests",
     'parts': [_c18.part()],
     'rule': ("one const item per (function family, N, L, element type): chunks_from_slice + slice_from_chunks and their _mut forms for N in {0,1,2,3,7,8,16,17,33,64,100,1024} and every L in 0..=3N+2 (boundary lattice for N > 17 in the quick tier and N >= 100), "
-             "from_slice/try_from_slice/from_mut_slice/try_from_mut_slice for L in {0,1,N-1,N,N+1,2N,3N+2}, len/from_array/into_array/as_slice/as_mut_slice/uninit+writes+assume_init per N, from_chunks/into_chunks(_mut) for 0..=3 chunks, element types u8, u32, (u8,u16), (); "
+             "from_slice/try_from_slice/from_mut_slice/try_from_mut_slice for L in {0,1,N-1,N,N+1,2N,3N+2}, len/from_array/into_array/as_slice/as_mut_slice/uninit+writes+assume_init per N, from_chunks/into_chunks(_mut) for 0..=3 chunks, element types u8, u32, (u8,u16), (), a 16-aligned one-byte payload, [u8; 3], char; "
              "const_transmute, builder/consumer const constructors (internals), const_default, arr! list (with and without trailing comma) and both repeat forms. Each item asserts natively computed expectations (lengths, pointer offsets, element values, where writes land) "
-             "and returns a digest; any E0080 is a violation attributed to its item. The built binary calls the same functions at run time through black-boxed function pointers and compares with the const-evaluated digests. 14 must-fail items "
+             "and returns a digest; any E0080 is a violation attributed to its item; the whole corpus is evaluated a second time on nightly with -Zextra-const-ub-checks (validity of every reference and value at every typed copy), where an E0080 is a violation too. The built binary calls the same functions at run time through black-boxed function pointers and compares with the const-evaluated digests. 14 must-fail items "
              "(wrong-length from_slice/from_mut_slice, zero-length chunking of a non-empty slice, const_transmute with a smaller or a larger source) must each be an E0080. Non-trivial = N > 0."),
     'exhaustive': True,
     'exhaustive_scope': 'the listed finite product',
